@@ -146,12 +146,17 @@ def multi_dim_midpoints(rep, tier):
     from sparseSpACE.Grid import GlobalTrapezoidalGridWeighted
     from sparseSpACE.Function import ConstantValue
     from scipy.stats import norm
-    cases = [[("Normal", 0.0, 1.0), ("Normal", 2.0, 0.25)], [("Normal", -1.0, 0.5), ("Normal", 0.3, 2.0), ("Normal", 4.0, 1.0)],
-             [("Uniform",), ("Normal", 1.0, 0.1)], [("Triangle", 0.5), ("Normal", 0.0, 3.0), ("Uniform",)]]
-    for info in cases:
+    cases = [([("Normal", 0.0, 1.0), ("Normal", 2.0, 0.25)], None), ([("Normal", -1.0, 0.5), ("Normal", 0.3, 2.0), ("Normal", 4.0, 1.0)], None),
+             ([("Uniform",), ("Normal", 1.0, 0.1)], None), ([("Triangle", 0.5), ("Normal", 0.0, 3.0), ("Uniform",)], None),
+             # the same distribution description in several dimensions with DIFFERENT supports
+             ([("Uniform",), ("Uniform",)], [(0.0, 1.0), (0.0, 2.0)]), ([("Uniform",), ("Uniform",)], [(-3.0, -1.0), (1.0, 4.0)]),
+             ([("Triangle", 0.5), ("Triangle", 0.5)], [(0.0, 1.0), (-1.0, 2.0)]), ([("Uniform",), ("Triangle", 1.0), ("Uniform",)], [(0.0, 1.0), (0.0, 2.0), (0.0, 1.0)])]
+    for info, bounds in cases:
         D = len(info)
-        a = np.array([-np.inf if k[0] == "Normal" else 0.0 for k in info])
-        b = np.array([np.inf if k[0] == "Normal" else 1.0 for k in info])
+        if bounds is None:
+            bounds = [(-np.inf, np.inf) if k[0] == "Normal" else (0.0, 1.0) for k in info]
+        a = np.array([lo for lo, _ in bounds])
+        b = np.array([hi for _, hi in bounds])
         try:
             op = UncertaintyQuantification(ConstantValue(1.0), [tuple(k) for k in info], a, b)
             grid = GlobalTrapezoidalGridWeighted(a, b, op, boundary=False)
@@ -163,16 +168,17 @@ def multi_dim_midpoints(rep, tier):
                 cdf = lambda x, _k=k: float(norm.cdf(x, loc=_k[1], scale=_k[2]))
                 ivs = [(-np.inf, k[1]), (k[1], np.inf), (k[1] - k[2], k[1] + 2 * k[2]), (k[1] + k[2], k[1] + 3 * k[2])]
             else:
-                cdf = ref_cdf(k[0].lower(), 0.0, 1.0)
-                ivs = [(0.0, 1.0), (0.0, 0.5), (0.25, 0.75), (0.5, 1.0)]
+                lo, hi = bounds[d]
+                cdf = ref_cdf(k[0].lower(), lo, hi)
+                ivs = [(lo + (hi - lo) * u, lo + (hi - lo) * v) for u, v in ((0.0, 1.0), (0.0, 0.5), (0.25, 0.75), (0.5, 1.0))]
             for x1, x2 in ivs:
                 with impl.quiet():
                     m = grid.get_mid_point(x1, x2, d)
                 pl, pr = cdf(m) - cdf(x1), cdf(x2) - cdf(m)
-                rep.count(1, key=('multimid', str(info), d, x1, x2))
+                rep.count(1, key=('multimid', str(info), str(bounds), d, x1, x2))
                 if not (x1 < m < x2) or abs(pl - pr) > 1e-8 * max(1e-3, pl + pr):
                     rep.violation('C15_MidpointHalvesProbability', {'distribution': k[0].lower(), 'multi_dim': True},
-                                  {'info': str(info), 'dimension': d, 'interval': [x1, x2], 'midpoint': m, 'probabilities': [pl, pr]},
+                                  {'info': str(info), 'bounds': str(bounds), 'dimension': d, 'interval': [x1, x2], 'midpoint': m, 'probabilities': [pl, pr]},
                                   what='operation %s dimension %d: midpoint of [%r,%r] is %r (probabilities %r / %r under the configured distribution)' % (info, d, x1, x2, m, pl, pr))
                     break
 
@@ -184,10 +190,10 @@ def moment_runs(rep, tier, rng):
     from sparseSpACE.spatiallyAdaptiveSingleDimension2 import SpatiallyAdaptiveSingleDimensions2
     from sparseSpACE.ErrorCalculator import ErrorCalculatorSingleDimVolumeGuided
     from sparseSpACE.Function import Function
-    cases = [('uniform', 2, [0.0, 0.0], [1.0, 2.0], True), ('triangle', 2, [-1.0, 0.0], [1.0, 1.0], True), ('normal-infinite', 2, [-np.inf] * 2, [np.inf] * 2, False)]
+    cases = [('uniform', 2, [0.0, 0.0], [1.0, 2.0], True), ('triangle', 2, [-1.0, 0.0], [1.0, 1.0], True), ('normal-infinite', 2, [-np.inf] * 2, [np.inf] * 2, False),
+             ('uniform', 2, [-3.0, 1.0], [-1.0, 4.0], True)]
     if tier == 'thorough':
-        cases += [('uniform', 3, [0.0] * 3, [1.0] * 3, False), ('triangle', 2, [0.0, 0.0], [2.0, 1.0], False), ('normal-infinite', 3, [-np.inf] * 3, [np.inf] * 3, False),
-                  ('uniform', 2, [-3.0, 1.0], [-1.0, 4.0], True)]
+        cases += [('uniform', 3, [0.0] * 3, [1.0] * 3, False), ('triangle', 2, [0.0, 0.0], [2.0, 1.0], False), ('normal-infinite', 3, [-np.inf] * 3, [np.inf] * 3, False)]
     for kind, D, a, b, bnd in cases:
         for (c, e) in ([(2.5, -1.0), (-3.0, 0.5)] if tier == 'quick' else [(2.5, -1.0), (-3.0, 0.5), (1e-3, 7.0), (40.0, 0.0)]):
             a_, b_ = np.array(a), np.array(b)
